@@ -1106,6 +1106,10 @@ class Engine(object):
                     fn = fr.filename
                     if '/symx/' in fn or fn.startswith('<'):
                         continue
+                    # library frames (json, numpy, sqlite3 ...) say nothing about WHO made the failing call: keep
+                    # walking outwards until a frame of the code under test or of the harness is reached
+                    if '/artap/' not in fn and '/props/' not in fn:
+                        continue
                     origin = fn
                     break
                 if origin is not None and ('/props/' in origin and '/artap/' not in origin):
